@@ -16,7 +16,7 @@ viol=0; summary=""
 if CARGO_TARGET_DIR="$VD/target" cargo build --profile relplain --offline --manifest-path "$VD/harness/Cargo.toml" >"$VD/target/.build-plain.log" 2>&1; then
   mkdir -p "$VD/target/plain-out"; cp "$VD/known_findings.json" "$VD/target/plain-out/" 2>/dev/null
   extra_env=""; [ "$id" = "C17" ] && extra_env="HV_TSAN_BIN=/nonexistent"
-  out=$(env $extra_env VERIF_DIR="$VD/target/plain-out" VERIF_SCALE="${PLAIN_SCALE:-0.5}" "$VD/target/relplain/hv" "$id" --tier quick 2>&1); code=$?
+  out=$(env $extra_env HV_NO_FLOOR=1 VERIF_DIR="$VD/target/plain-out" VERIF_SCALE="${PLAIN_SCALE:-0.5}" "$VD/target/relplain/hv" "$id" --tier quick 2>&1); code=$?
   evals=$(echo "$out" | grep -o "evaluations=[0-9]*" | head -1)
   if [ $code -eq 1 ]; then viol=1; echo "$out" | grep -A2 "^VIOLATION" | sed 's/^VIOLATION property=\([A-Z0-9]*\) /VIOLATION property=\1 /; s/^  signature: /  signature: [plain-release] /'; fi
   summary="\"plain_release\":{\"exit\":$code,\"${evals/=/\":}}"
@@ -25,7 +25,7 @@ else summary="\"plain_release\":{\"exit\":\"build_failed\"}"; fi
 case "$id" in C17) ;; *)
   if RUSTFLAGS="-Zsanitizer=address -Cforce-frame-pointers=yes" CARGO_TARGET_DIR="$VD/target-asan" cargo +nightly build --target x86_64-unknown-linux-gnu --release --offline --manifest-path "$VD/harness/Cargo.toml" >"$VD/target/.build-asan.log" 2>&1; then
     mkdir -p "$VD/target-asan/out" "$VD/target-asan/logs"; rm -f "$VD/target-asan/logs/"*; cp "$VD/known_findings.json" "$VD/target-asan/out/" 2>/dev/null
-    out=$(ASAN_OPTIONS="detect_leaks=0 halt_on_error=1 abort_on_error=0 log_path=$VD/target-asan/logs/asan" VERIF_DIR="$VD/target-asan/out" VERIF_SCALE="${ASAN_SCALE:-0.15}" "$VD/target-asan/x86_64-unknown-linux-gnu/release/hv" "$id" --tier quick 2>&1); code=$?
+    out=$(HV_NO_FLOOR=1 ASAN_OPTIONS="detect_leaks=0 halt_on_error=1 abort_on_error=0 log_path=$VD/target-asan/logs/asan" VERIF_DIR="$VD/target-asan/out" VERIF_SCALE="${ASAN_SCALE:-0.15}" "$VD/target-asan/x86_64-unknown-linux-gnu/release/hv" "$id" --tier quick 2>&1); code=$?
     reports=$(cat "$VD/target-asan/logs/"* 2>/dev/null | grep -c "ERROR: AddressSanitizer")
     if [ "$reports" -gt 0 ]; then
       viol=1; mkdir -p "$VD/replays/$id"; rp="$VD/replays/$id/asan_report.txt"; cat "$VD/target-asan/logs/"* | head -120 > "$rp"
@@ -34,6 +34,38 @@ case "$id" in C17) ;; *)
     evals=$(echo "$out" | grep -o "evaluations=[0-9]*" | head -1)
     summary="$summary,\"asan\":{\"exit\":$code,\"reports\":$reports,\"${evals/=/\":}}"
   else summary="$summary,\"asan\":{\"exit\":\"build_failed\"}"; fi;;
+esac
+# ---- (3) Miri as undefined-behaviour monitor (out-of-bounds, use-after-free, uninitialised reads, invalid values, data
+#      races) on a handful of small-degree cases of this property's own workload, several seeds in parallel. Functional
+#      verdicts of these sub-runs are ignored on purpose (Miri perturbs floating-point results by design, which breaks
+#      tolerance-based oracles); only Miri's own reports count. Alignment and stacked-borrows checks are off (DESIGN 2.3).
+case "$id" in C17) ;; *)
+  if [ "${VERIF_NO_MIRI:-0}" != "1" ]; then
+    # parameters go in with -Zmiri-env-set: cargo-miri replays the environment captured when the crate was built, so plain
+    # shell variables are not reliable inside the interpreted program
+    mflags="-Zmiri-disable-isolation -Zmiri-disable-alignment-check -Zmiri-disable-stacked-borrows -Zmiri-env-set=HV_NO_FLOOR=1 -Zmiri-env-set=VERIF_JOBS=1 -Zmiri-env-set=VERIF_SCALE=1 -Zmiri-env-set=HV_MIRI_BUDGET_S=${MIRI_BUDGET_S:-240} -Zmiri-env-set=HV_MIRI_CASES=${MIRI_CASES:-2}"
+    mdir="$VD/target-miri/out-$id"; rm -rf "$mdir"; mkdir -p "$mdir"
+    # build once (the first process builds, the others would only wait on the lock)
+    MIRIFLAGS="$mflags" CARGO_TARGET_DIR="$VD/target-miri" timeout 900 cargo +nightly miri run --offline --manifest-path "$VD/harness/Cargo.toml" -- selftest-none >"$mdir/build.log" 2>&1
+    procs="${MIRI_PROCS:-6}"; base="${VERIF_SEED:-1}"
+    for k in $(seq 1 "$procs"); do
+      ( mkdir -p "$mdir/$k"; cp "$VD/known_findings.json" "$mdir/$k/" 2>/dev/null
+        MIRIFLAGS="$mflags -Zmiri-env-set=VERIF_DIR=$mdir/$k -Zmiri-env-set=VERIF_SEED=$((base * 1000 + k))" CARGO_TARGET_DIR="$VD/target-miri" \
+          timeout "${MIRI_TIMEOUT:-900}" cargo +nightly miri run --offline --manifest-path "$VD/harness/Cargo.toml" -- "$id" --tier quick >"$mdir/$k.log" 2>&1
+        echo $? >"$mdir/$k.code" ) &
+    done
+    wait
+    ub=$(cat "$mdir"/*.log | grep -c -E "error: Undefined Behavior|error: .*[Dd]ata race")
+    cases=$(cat "$mdir"/*.log | grep "^MIRI-GROUP" | sed 's/.*cases=\[//; s/\]//' | tr ',' '\n' | grep -c '[0-9]')
+    groups=$(cat "$mdir"/*.log | grep "^MIRI-GROUP" | awk '{print $2}' | sort -u | wc -l)
+    tmo=$(cat "$mdir"/*.code | grep -c '^124$'); unsup=$(cat "$mdir"/*.log | grep -c "error: unsupported operation")
+    if [ "$ub" -gt 0 ]; then
+      viol=1; mkdir -p "$VD/replays/$id"; rp="$VD/replays/$id/miri_report.txt"
+      for f in "$mdir"/*.log; do if grep -q -E "error: Undefined Behavior|error: .*[Dd]ata race" "$f"; then { grep "^MIRI-GROUP" "$f" | tail -1; grep -E -A40 "error: Undefined Behavior|error: .*[Dd]ata race" "$f" | head -80; } > "$rp"; break; fi; done
+      echo "VIOLATION property=$id replay=$rp"; echo "  signature: $id|miri|$(grep -m1 -E 'error: ' "$rp" | sed 's/error: //' | cut -c1-90)|undefined_behaviour"
+    fi
+    summary="$summary,\"miri\":{\"processes\":$procs,\"ub_reports\":$ub,\"cases_started\":$cases,\"groups\":$groups,\"timeouts\":$tmo,\"unsupported\":$unsup}"
+  fi;;
 esac
 echo "EXTRA_SUMMARY {$summary}"
 exit $viol
